@@ -117,6 +117,19 @@ func (muxerSlice) Gen(r *rand.Rand, _ int, tier string) ([]string, []string) {
 		maxSize = int64(300 + r.Intn(3000))
 		tags = append(tags, "small-maxsize")
 	}
+	if r.Intn(30) == 0 { // zero values select the documented defaults
+		switch r.Intn(4) {
+		case 0:
+			segCount = 0
+		case 1:
+			segMin = 0
+		case 2:
+			partMin = 0
+		default:
+			maxSize = 0
+		}
+		tags = append(tags, "defaults")
+	}
 	dir := r.Intn(3) == 0
 	if dir {
 		tags = append(tags, "dir")
@@ -141,7 +154,10 @@ func (muxerSlice) Gen(r *rand.Rand, _ int, tier string) ([]string, []string) {
 	var baseSec float64
 	switch r.Intn(6) {
 	case 0:
-		baseSec = -float64(r.Intn(12)) - r.Float64() // negative start, down to below -10 s
+		baseSec = -float64(r.Intn(10)) - r.Float64()*0.7 // negative start, down to -10 s (C01's quantifier)
+		if r.Intn(6) == 0 {
+			baseSec -= 2 // below -10 s: outside the quantifier, model = implementation only
+		}
 		tags = append(tags, "negative-start")
 	case 1:
 		baseSec = float64(r.Intn(1 << 20))
